@@ -360,6 +360,34 @@ def _relation(prog, chk, named, fns):
             badm.append('%s ← %s: %s' % (e, a, got))
     chk.ob('R16.B', 'matchesPrimitive', 'src/bloch/compiler/semantics/semantic_analyser.cpp', not badm,
            'matchesPrimitive: equal tags, int→long, unknown passes — nothing else; mismatches: %s' % badm[:6], key='table:matchesPrimitive')
+    # numericPromotion: the inferred type of `a op b` — any float makes a float, else any long a long, else int, else bit (language guide:
+    # "Mixed int/long promotes to long; any float promotes to float"); the inferred type is what every compatibility check is fed
+    npc = None
+    for (nm, fl, ln), gl in prog.facts.globals.items():
+        if nm.endswith('numericPromotion') and SX.is_node(gl.get('init')) and gl['init'].get('k') == 'lambda':
+            npc = gl['init']
+    if npc is not None:
+        ORDER = ['Float', 'Long', 'Int', 'Bit']
+        badp = []
+        for e, a in itertools.product(ORDER, repeat=2):
+            it = Interp(prog, {})
+            env = {npc['params'][0]['id']: VT + e, npc['params'][1]['id']: VT + a}
+            try:
+                from ..kabs import Ret
+                try:
+                    it.stmt(npc['body'], env)
+                    got = None
+                except Ret as r:
+                    got = r.v
+            except Unsupported as ex:
+                raise AnalysisBroken('numericPromotion: %s' % ex)
+            want = VT + ORDER[min(ORDER.index(e), ORDER.index(a))]
+            if got != want:
+                badp.append('%s op %s: %s' % (e, a, str(got).split('::')[-1]))
+        chk.ob('R16.B', 'numericPromotion', 'src/bloch/compiler/semantics/semantic_analyser.cpp', not badp,
+               'numericPromotion: float before long before int before bit; mismatches: %s' % badp[:6], key='table:numericPromotion')
+    else:
+        chk.vacuous.append('numericPromotion closure not found')
 
 
 # (function, member) pairs that write a saved-elsewhere context member without saving it, confirmed by reading:
